@@ -44,6 +44,10 @@ type Adv struct {
 	Every   int  `json:"every"`    // answer after this many data segments (1..3)
 	Lose    bool `json:"lose"`     // pretend the segment(s) just received were lost: no ACK, not recorded (forces retransmission)
 	PMTU    int  `json:"pmtu"`     // >0: before answering, a router reports "packet too big" with this path MTU, quoting the segment just received
+	// Replay > 0: after this answer an exact copy of the segment the peer sent
+	// Replay segments earlier arrives once more (the network reordered or
+	// duplicated it): an old acknowledgement carries an old window and offers nothing new
+	Replay int `json:"replay,omitempty"`
 }
 
 type SendCase struct {
@@ -63,7 +67,7 @@ type offer struct {
 	edge uint32 // ack + (wnd<<ws) relative to IRS+1 (mod 2^32)
 }
 
-var dbg bool
+var dbg = os.Getenv("C04_DBG") != ""
 
 // cookieMode (plan unit with C04_COOKIE=1): every passive open goes through the
 // listener's SYN-cookie path (the endpoint is rebuilt from the final ACK: MSS
@@ -270,11 +274,17 @@ func runSend(c SendCase) *evid.Failure {
 		step++
 		if adv.Lose && losses < 4 {
 			losses++
-			for i := off; i < end; i++ {
+			// (only what has not been acknowledged yet can be un-received: a receiver
+			// never takes an acknowledgement back)
+			lo := off
+			if int32(acked-lo) > 0 {
+				lo = acked
+			}
+			for i := lo; i < end; i++ {
 				have[i] = false
 			}
-			if edgeRcv > off {
-				edgeRcv = off
+			if edgeRcv > lo {
+				edgeRcv = lo
 			}
 			evid.Label("send:segment-treated-as-lost")
 			continue
@@ -304,11 +314,15 @@ func runSend(c SendCase) *evid.Failure {
 				fmt.Printf("PMTU report %d quoting off=%d len=%d total=%d\n", adv.PMTU, off, len(k.Payload), fr.Pkt.IPTotal)
 			}
 			// a router that reports "too big" has dropped the packet: treat it as not received
-			for i := off; i < end; i++ {
+			lo := off
+			if int32(acked-lo) > 0 {
+				lo = acked
+			}
+			for i := lo; i < end; i++ {
 				have[i] = false
 			}
-			if edgeRcv > off {
-				edgeRcv = off
+			if edgeRcv > lo {
+				edgeRcv = lo
 			}
 			evid.Label("send:path-mtu-reduced")
 			continue
@@ -316,7 +330,7 @@ func runSend(c SendCase) *evid.Failure {
 		if adv.DelayUs > 0 {
 			time.Sleep(time.Duration(adv.DelayUs) * time.Microsecond)
 		}
-		if !adv.HoldAck {
+		if !adv.HoldAck && int32(edgeRcv-acked) > 0 {
 			acked = edgeRcv
 		}
 		w := uint32(adv.Wnd)
@@ -346,7 +360,19 @@ func runSend(c SendCase) *evid.Failure {
 		p.RcvNxt = p.IRS + 1 + acked
 		p.Wnd = uint16(field)
 		offers = append(offers, offer{time.Now(), newEdge})
+		if dbg {
+			fmt.Printf("ack acked=%d field=%d scale=%d edge=%d (adv %+v)\n", acked, field, scale, newEdge, adv)
+		}
 		p.Ack()
+		if adv.Replay > 0 && len(p.Sent) > adv.Replay {
+			if old := p.Sent[len(p.Sent)-1-adv.Replay].Seg; old.Flags == codec.ACK && len(old.Payload) == 0 {
+				p.Send(old)
+				evid.Label("send:stale-ack-replayed")
+				if dbg {
+					fmt.Printf("replayed old ack=%d wnd=%d\n", old.Ack-(p.IRS+1), old.Wnd)
+				}
+			}
+		}
 	}
 	if int(edgeRcv) < total {
 		evid.Label("send:incomplete")
@@ -421,6 +447,7 @@ func genSend(rt *rapid.T) SendCase {
 		a.DelayUs = rapid.SampledFrom([]int{0, 0, 0, 100, 1000, 5000}).Draw(rt, "delay")
 		a.Every = rapid.IntRange(1, 3).Draw(rt, "every")
 		a.Lose = rapid.IntRange(0, 9).Draw(rt, "lose") == 0
+		a.Replay = rapid.SampledFrom([]int{0, 0, 0, 0, 1, 2, 5}).Draw(rt, "replay")
 		if rapid.IntRange(0, 5).Draw(rt, "pmtu") == 0 {
 			lo := 576
 			if c.Env.V6 {
